@@ -294,6 +294,9 @@ def _phase1(arg):
 
 def run(ctx):
   env.boot()
+  # the listening side: connections made while receivers are paused, the connection limit, the port's accept state
+  from .. import listenh
+  listenh.run_in(ctx, ctx.pick(6, 8))
   cfgs = core.seeded_order(relay_configs(ctx), ctx.seed)
 
   def depth_for(c):
@@ -338,6 +341,9 @@ def run(ctx):
 def replay(path):
   body = json.load(open(path))
   rep = body['replay']
+  if 'listener' in rep:
+    from .. import listenh
+    return listenh.replay(rep)
   if rep['side'] == 'relay':
     c = rep['config']
     c['metrics'] = tuple(c['metrics'])
